@@ -287,6 +287,11 @@ func main() {
 		reset func()
 	}
 	coords := []float64{5, -3, 2, 0, -1, 1, 3, 7, -2, 4, 6}
+	successor := map[orb.Point]orb.Point{}
+	for k := 0; k < len(coords); k++ {
+		at := func(k int) orb.Point { return orb.Point{coords[2*k%len(coords)], coords[(2*k+1)%len(coords)]} }
+		successor[at(k)] = at(k + 1)
+	}
 	newLocal := func(int) interface{} {
 		next, reset := gg.Cyclic(coords)
 		return &loc{&gg.Gen{K: 2, M: 2, Depth: 3, NilSlice: true, Next: next}, reset}
@@ -301,6 +306,17 @@ func main() {
 			},
 			func(n *int) orb.Projection {
 				return func(p orb.Point) orb.Point { *n++; return orb.Point{p[1] + float64(*n)/1024, p[0]} }
+			},
+			// the image of every vertex is the vertex that follows it in the generator's sequence: each input vertex
+			// equals the projection of its predecessor (shortcuts keyed on "same as the previous result" go wrong here)
+			func(n *int) orb.Projection {
+				return func(p orb.Point) orb.Point {
+					*n++
+					if q, ok := successor[p]; ok {
+						return q
+					}
+					return orb.Point{p[0] + 100, p[1] + 100}
+				}
 			},
 		} {
 			var calls, refCalls int
@@ -334,12 +350,12 @@ func main() {
 			c.NonTrivial()
 		}
 	}
-	r.Explore("geometry-noncollection", "full product of the 8 non-collection kinds (k=2, m=2) x 3 point functions", mc.Opts{MaxDev: -1, NewLocal: newLocal}, func(c *mc.Ctx) {
+	r.Explore("geometry-noncollection", "full product of the 8 non-collection kinds (k=2, m=2) x 4 point functions", mc.Opts{MaxDev: -1, NewLocal: newLocal}, func(c *mc.Ctx) {
 		l := c.Local().(*loc)
 		l.reset()
 		check(c, l.g.Kind(c, c.Choose(gg.KCollection), 0, true))
 	})
-	r.Explore("geometry-collections", "collections nested to depth 3 within 5 deviations x 3 point functions", mc.Opts{MaxDev: 5, NewLocal: newLocal}, func(c *mc.Ctx) {
+	r.Explore("geometry-collections", "collections nested to depth 3 within 5 deviations x 4 point functions", mc.Opts{MaxDev: 5, NewLocal: newLocal}, func(c *mc.Ctx) {
 		l := c.Local().(*loc)
 		l.reset()
 		check(c, l.g.Kind(c, gg.KCollection, 0, true))
